@@ -33,7 +33,7 @@ ENTRY = {'title': 'Payload decoding conforms to the ecoNET wire layout for every
              'argument that is None or a string-keyed dict: (index, week) per entry, returned offset offset + 3 + 47*count, IndexError when the model '
              'fails, fewer than 3 bytes = no schedules with the offset unchanged; the schedule_parameters list is stated from the raw bytes (rawParams, '
              'with P2.unpackParam): the model Entry keeps switch and value only':
-                 'theorem (TieStructSchedules.unpack_schedule_eq, sched_fold, schedules_decode_eq) + translator validation (harness/pycode.py group schedule)',
+                 'theorem (TieStructSchedules.unpack_schedule_eq, sched_fold, schedules_decode_eq, rawParams_model: the (index, value) pairs of that list = the model entries\' switches and values) + translator validation (harness/pycode.py group schedule)',
              'code tie of the short sensor sections and the mixer-sensors section (round 8): the SOURCE TEXT of FuelLevelStructure / BoilerLoadStructure / '
              'PendingAlertsStructure / FanPowerStructure / BoilerPowerStructure / FuelConsumptionStructure / OutputFlagsStructure .decode and of '
              'MixerSensorsStructure (._unpack_mixer_sensors, ._mixer_sensors, .decode), translated on every run, equals Sens.decFuelLevel / decBoilerLoad / '
